@@ -517,6 +517,7 @@ def fam_reuse(case):
     tw = np.array([3.0, 4.0, 6.0, 30.0])
     fb = FluxBinner(tc.copy(), tw.copy())
     calls = []
+    kept = []
     for letter, n, gw, dim, err in case['seq']:
         c, w = native(letter, n)
         w_eff = eff_width(c, w, gw)
@@ -537,9 +538,16 @@ def fam_reuse(case):
             r.eq(ge[..., ok], er[..., ok], 'reuse-error', 'reuse/error/%d-calls' % len(calls), rtol=1e-9, seq=tag)
         else:
             r.check(got[2] is None, 'reuse-error-none', 'reuse/error-not-none/%d-calls' % len(calls), seq=tag)
+        kept.append((got, [None if a is None else np.array(a, dtype=float, copy=True) for a in got]))
         r.eq(np.asarray(got[0], float), tc, 'reuse-grid', 'reuse/grid', rtol=0)
         r.eq(np.asarray(got[3], float), tw, 'reuse-width', 'reuse/width', rtol=0)
         r.observe(gv)
+    # what earlier calls returned is still what they returned (no result object is recycled by a later call)
+    for k, (orig, copy) in enumerate(kept[:-1]):
+        same = all((a is None and b is None) or (a is not None and b is not None and
+                                                    np.array_equal(np.asarray(a, float), b, equal_nan=True))
+                   for a, b in zip(orig, copy))
+        r.check(same, 'earlier-result-intact', 'reuse/earlier-result-overwritten', call=k, of=len(kept))
     r.nontrivial = True
     return r
 
